@@ -9,6 +9,7 @@ from sa.facts import callee_name, norm
 
 
 def rules(ctx):
+    ctx.rule("CHR-1", "every assignment to the string entries of a grapheme is an element-wise map of the same entries (the entry is the unit of escaping)")
     ctx.rule("CNT-1", "the code-point counter behind the single-code-point test measures every unit it counts; a constant count needs a dominating length fact")
     ctx.rule("CNT-2", "every length measurement behind the single-code-point test counts chars (Chars/CharIndices::count, or the length of an ASCII escaper result)")
 
@@ -132,3 +133,43 @@ def cnt2(ctx, lib):
     ctx.floor(rid, "length measurements behind the single-code-point test", n, 2)
 
 
+
+
+def chr1(ctx, lib):
+    """CHR-1: the entries of `Grapheme.chars` are the unit of escaping (one entry per grapheme, or one class token such as \\d): an assignment to the field must be
+    an element-wise map of the same grapheme's entries.  Replacing them by a vector literal (e.g. the joined text) lets `\\` and a following `d` share an entry, which the
+    escaper then takes for the class token."""
+    rid = "CHR-1"
+    n = 0
+    for b in lib.bodies:
+        if b.derived or b.from_expansion:
+            continue
+        d = None
+        for bi, blk in b.iter_blocks():
+            for s_ in blk["stmts"]:
+                if s_["k"] != "assign":
+                    continue
+                proj = s_["place"]["proj"]
+                if not (proj and proj[-1].get("k") == "field" and proj[-1].get("adt") == "grapheme::Grapheme" and "Vec<std::string::String>" in norm(s_["place"]["ty"])):
+                    continue
+                if b.path.startswith("grapheme::Grapheme::") and b.sig_output in ("grapheme::Grapheme", "Self") and not b.sig_inputs[:1] == ["&mut grapheme::Grapheme"]:
+                    continue        # constructors
+                d = d or local.Defs(b)
+                o = local.peel(d.rvalue(s_["rv"]))
+                fld = proj[-1].get("name")
+                n += 1
+                elementwise = False
+                if o[0] == "call" and re.search(r"::collect(?:_vec)?$", o[1]) and o[2]:
+                    m_ = local.peel(o[2][0])
+                    if m_[0] == "call" and m_[1].endswith("Iterator::map") and any(x[0] == "field" and x[1] == fld for x in local.walk(m_[2][0])):
+                        elementwise = True
+                literal = any(x[0] == "call" and re.search(r"box_assume_init_into_vec|vec::from_elem|Vec::<T>::new$|Vec::<T>::with_capacity$", x[1]) for x in local.walk(o))
+                if elementwise:
+                    ctx.ok(rid, "%s:%s = map over the same entries" % (b.path, fld), None, b.loc(s_.get("line")))
+                elif literal:
+                    ctx.violation(rid, (b.path, "entries replaced"), "the entries of `%s` are replaced by a freshly built vector instead of being mapped one by one: the entry structure "
+                                  "(one per grapheme / class token) that per-entry escaping relies on is lost (a literal backslash followed by `d` in one entry is taken for \\d)" % fld,
+                                  b.loc(s_.get("line")))
+                else:
+                    ctx.undecided(rid, b.path, "cannot tell whether the assignment to `%s` keeps one entry per old entry: %s" % (fld, local.show(o)[:100]), b.loc(s_.get("line")))
+    ctx.floor(rid, "assignments to the string entries of a grapheme", n, 1)
